@@ -478,9 +478,20 @@ func createUpstreamRequest(rw http.ResponseWriter, r *http.Request) (*http.Reque
 		outreq.Body = nil
 	}
 
-	// We are modifying the same underlying map from req (shallow
-	// copied above) so we only copy it if necessary.
-	copiedHeaders := false
+	// The outgoing request gets a header map and a URL of its own. With
+	// the maps of the incoming request (shallow copied above) everything
+	// done to the outgoing one - X-Forwarded-For, the header_upstream
+	// rules, credentials of the upstream - would be done to the client's
+	// request as well: placeholders such as {>Authorization} would then
+	// see what an earlier rule wrote, and a request that is relayed once
+	// more (internal's X-Accel-Redirect) would carry the first block's
+	// changes and the client address twice.
+	outreq.Header = make(http.Header)
+	copyHeader(outreq.Header, r.Header)
+	if r.URL != nil {
+		u := *r.URL
+		outreq.URL = &u
+	}
 
 	// Remove hop-by-hop headers listed in the "Connection" header.
 	// See RFC 2616, section 14.10.
@@ -488,11 +499,6 @@ func createUpstreamRequest(rw http.ResponseWriter, r *http.Request) (*http.Reque
 	for _, c := range r.Header["Connection"] {
 		for _, f := range strings.Split(c, ",") {
 			if f = strings.TrimSpace(f); f != "" {
-				if !copiedHeaders {
-					outreq.Header = make(http.Header)
-					copyHeader(outreq.Header, r.Header)
-					copiedHeaders = true
-				}
 				outreq.Header.Del(f)
 			}
 		}
@@ -505,11 +511,6 @@ func createUpstreamRequest(rw http.ResponseWriter, r *http.Request) (*http.Reque
 		// (present, whatever its first value: "Proxy-Authorization:" on an
 		// empty line followed by a line with the credentials)
 		if _, present := outreq.Header[h]; present {
-			if !copiedHeaders {
-				outreq.Header = make(http.Header)
-				copyHeader(outreq.Header, r.Header)
-				copiedHeaders = true
-			}
 			outreq.Header.Del(h)
 		}
 	}
@@ -527,11 +528,6 @@ func createUpstreamRequest(rw http.ResponseWriter, r *http.Request) (*http.Reque
 	if _, ok := outreq.Header["User-Agent"]; !ok {
 		// the transport would add its own User-Agent to a request
 		// that came without one; an empty value keeps it from doing so
-		if !copiedHeaders {
-			outreq.Header = make(http.Header)
-			copyHeader(outreq.Header, r.Header)
-			copiedHeaders = true
-		}
 		outreq.Header.Set("User-Agent", "")
 	}
 
